@@ -107,7 +107,7 @@ Print Assumptions C13_wellknown_time.
 Theorem C13_no_alias_clash :
   forall (cls_name snake optional : list byte -> list byte),
     (forall l, l <> [] -> forallb plain_segb l = true -> snake (py_join b_dot l) = py_join b_us l) ->
-    (forall T, type_okb T = true -> cls_startb (cls_name T) = true) ->
+    (forall T, type_okb T = true -> identb (cls_name T) = true /\ cls_startb (cls_name T) = true) ->
   forall (cur tgt1 tgt2 : list (list byte)) (T1 T2 : list byte) (u1 u2 pydantic : bool) s1 s2,
     plain_pkgb cur = true -> plain_pkgb tgt1 = true -> plain_pkgb tgt2 = true ->
     type_okb T1 = true -> type_okb T2 = true ->
@@ -115,8 +115,16 @@ Theorem C13_no_alias_clash :
     snd (get_type_reference cls_name snake optional (py_join b_dot cur) (b_dot :: py_join b_dot (tgt1 ++ [T1])) u1 pydantic) = Some s1 ->
     snd (get_type_reference cls_name snake optional (py_join b_dot cur) (b_dot :: py_join b_dot (tgt2 ++ [T2])) u2 pydantic) = Some s2 ->
     alias_of s1 = alias_of s2 -> s1 = s2.
-Proof. exact no_alias_clash. Qed.
+Proof. exact no_alias_clash_gen. Qed.
 Print Assumptions C13_no_alias_clash.
+
+Example C13_no_alias_clash_nonvacuous :
+  plain_pkgb [sa; sb] = true /\ plain_pkgb [sc; sd] = true /\ plain_pkgb [sa; sc] = true /\
+  type_okb t_T = true /\ identb (CLS t_T) = true /\ cls_startb (CLS t_T) = true /\
+  SNK (py_join b_dot [sc; sd]) = py_join b_us [sc; sd] /\
+  alias_of (imp_of (gtr [sa; sb] [sc; sd] t_T)) = Some [x5f; x5f; x63; x5f; x64; x5f; x5f] /\
+  alias_of (imp_of (gtr [sa; sb] [sa; sc] t_T)) = Some [x5f; x63; x5f; x5f].
+Proof. exact no_alias_clash_example. Qed.
 
 (* ---- refutations of the unconditional statement on the pinned code ---- *)
 (* K2: upper-case package segment *)
